@@ -395,6 +395,12 @@ def generate_and_run(ps: PureSys, rng: np.random.Generator, stats: Stats, tier: 
     eager_p = EAGER_COST.get(ps.adapter.name, 0.12)
     crash_p = float(rng.choice([0.0, 0.0, 0.03]))
     rr = 0
+    # EAGER_ONLY client: in some runs one client is served by plain Python calls only, from its reset to the end of its
+    # episode, so its state never passes through a jax transformation (Python-int / weak-typed leaves stay what the
+    # library made them) - "plain per-call Python execution" for a whole episode, compared step by step with the jitted reference
+    eager_only = int(rng.integers(0, n_clients)) if rng.random() < (0.12 if ps.adapter.name in EAGER_COST else 0.35) else -1
+    if eager_only >= 0:
+        stats.inc(stats.faults, "EAGER_ONLY_CLIENT")
 
     def act_for(ci: int) -> Any:
         c = run.clients[ci]
@@ -426,7 +432,12 @@ def generate_and_run(ps: PureSys, rng: np.random.Generator, stats: Stats, tier: 
             if ci != rr:
                 stats.inc(stats.faults, "REORDER")
             rr = (ci + 1) % n_clients
-            ready = [i for i, c in enumerate(run.clients) if not c.need_reset]
+            ready = [i for i, c in enumerate(run.clients) if not c.need_reset and i != eager_only]
+            if ci == eager_only or (eager_only >= 0 and rng.random() < 0.5):
+                # the eager-only client gets half of the deliveries, so that it reaches the end of its episode
+                ci = eager_only
+                emit(["deliver", ci, "EAGER", act_for(ci)])
+                continue
             if r < 0.45 and ready:
                 k = int(rng.integers(1, len(ready) + 1))
                 cis = sorted(int(x) for x in rng.choice(ready, size=k, replace=False))
